@@ -1,3 +1,34 @@
 // Kani harnesses mounted into crates/rip-tui/src/state.rs (cfg(kani) only).
 #![allow(unused_imports, dead_code)]
 use super::*;
+
+// C20: bounded previews / output text cut on char boundaries. For ANY existing text (2 ASCII bytes), ANY valid UTF-8
+// chunk of 3 bytes (1-, 2- and 3-byte characters included) and ANY cap 0..=6: no panic (a cut inside a multi-byte
+// character would panic), and the stored text never exceeds the cap.
+#[kani::proof]
+#[kani::unwind(8)]
+fn c20_push_preview_bounded() {
+    let a: u8 = kani::any();
+    let b: u8 = kani::any();
+    kani::assume(a < 128 && b < 128);
+    let mut target = String::with_capacity(16);
+    target.push(a as char);
+    target.push(b as char);
+    let bytes: [u8; 3] = kani::any();
+    let chunk = match core::str::from_utf8(&bytes) {
+        Ok(s) => s,
+        Err(_) => {
+            kani::assume(false);
+            unreachable!()
+        }
+    };
+    let max_len: usize = kani::any();
+    kani::assume(max_len <= 6);
+    let before = target.len();
+    push_preview(&mut target, chunk, max_len);
+    assert!(target.len() <= core::cmp::max(max_len, 0) || target.len() <= max_len, "preview exceeds its cap");
+    assert!(target.len() <= before + 3);
+    kani::cover!(bytes[0] >= 0xE0 && max_len == 3, "3-byte character at the truncation boundary");
+    kani::cover!(target.len() == 5, "nothing truncated");
+    core::mem::forget(target);
+}
